@@ -89,6 +89,7 @@ pub fn hx_cfg_from_json(v: &Value) -> HxCfg {
         reload: p["reload"].as_bool().unwrap_or(false),
         cuts: p["cuts"].as_bool().unwrap_or(false),
         slice: p["slice"].as_bool().unwrap_or(false),
+        slice_add: p["slice_add"].as_bool().unwrap_or(false),
         exports: p["exports"].as_bool().unwrap_or(false),
         texts: p["texts"].as_bool().unwrap_or(false),
         lockstep: serde_json::from_value(p["lockstep"].clone()).unwrap_or_default(),
